@@ -91,10 +91,25 @@ def check_one(run, rel, qual, spec):
     if rel == EARR:
         callees["_update"] = Spec(writes_args={"args": (0,)})     # rescaled variant: heap lives in the column
     sp = Spec(modifies=list(spec.modifies) + ["callee:" + c for c in CACHE_ONLY], writes_args=spec.writes_args)
-    chk = frames.FrameChecker(fn, sp, callees)
+
+    def resolver(mname, cls=qual.split(".")[0] if "." in qual else None):
+        if cls is None:
+            return None
+        try:
+            return source.find(rel, f"{cls}.{mname}")
+        except KeyError:
+            return None
+    chk = frames.FrameChecker(fn, sp, callees, resolver=resolver)
     findings, unclassified = chk.check()
     if findings:
-        run.obligation(name, "refuted", backend="ownership", detail=str(findings[0]), model={"findings": [repr(f) for f in findings]},
+        # The property's second sentence IS a frame condition on the grammar (rules, V, S, N, R): a store that can reach them is a
+        # violation of the property.  A store into a *new field of the parser / model object itself* is new cached state: allowed by
+        # the property as long as answers stay history-independent, which is what the bounded histories decide - auxiliary role.
+        is_parser = "." in qual and qual.split(".")[0] != "CFG" and rel != CFG
+        cache_only = is_parser and all((f.loc or "").startswith("self.") and not (f.loc or "").startswith("self.cfg") for f in findings)
+        run.obligation(name, "refuted", backend="ownership", role="auxiliary" if cache_only else "property",
+                       detail=("new cached state on the parser object (history-independence is decided by the bounded histories): " if cache_only else "") + str(findings[0]),
+                       model={"findings": [repr(f) for f in findings]},
                        replay=dict(replayed=False, findings=[repr(f) for f in findings], function=qual, file=rel),
                        signature=f"{qual}:modifies")
     elif unclassified:
